@@ -95,7 +95,7 @@ pub fn select_menu(thorough: bool, sqlite_only: bool) -> Vec<SelOp> {
     }
     m.push(SelOp::Join(JoinK::Left, "t2", on2));
     let pb = pool_bool();
-    let n_pb = if thorough { pb.len() } else { 8 };
+    let n_pb = if thorough { pb.len() } else { 9 };
     for x in pb.iter().take(n_pb) {
         m.push(SelOp::Where(CondS::One(x.clone())));
     }
@@ -120,6 +120,7 @@ pub fn select_menu(thorough: bool, sqlite_only: bool) -> Vec<SelOp> {
     m.push(SelOp::Order(XS::Col("a"), OrderK::Nulls(false, false)));
     m.push(SelOp::Order(XS::Col("b"), OrderK::Nulls(true, true)));
     m.push(SelOp::Order(XS::Col("s"), OrderK::Field(vec![V::Str("y".into()), V::Str("x".into())])));
+    m.push(SelOp::Order(XS::Col("s"), OrderK::Field(vec![V::Str("x\\".into()), V::Str("it's".into())])));
     m.push(SelOp::Limit(3));
     m.push(SelOp::Offset(1));
     m.push(SelOp::Cte("t3", false, bx(r[0].clone())));
